@@ -36,6 +36,13 @@ CLAIMED = {
              'renderings, free labels of up to 4 cells), the library\'s own string comparisons fork on the cells, and each clause is decided on every path; '
              'monotonicity is a two-label path exploration. Table keys are a finite set checked exhaustively.',
         note='Assumes the string / formatting proxies agree with CPython (validated per path on a solver witness against the plain library). Bounds in evidence.'),
+    'C06': dict(
+        category='model_checking', design_ref='DESIGN.md section 3 C06',
+        technique='symbolic execution of the real round_up_str_num / format_seconds_as_time / parse_hms on digit-cell strings and a symbolic duration; integer ceiling oracle as z3 LIA obligations; float formatting by a correct-rounding contract',
+        text='Bounded symbolic checking: every digit, the duration (integer seconds 0..359999 and the 8-decimal fixed-point fraction) and every text cell are solver variables; '
+             'each path ends in z3 obligations against the exact integer ceiling / sexagesimal oracle, so the claim holds for all values in the bounds. The float part is closed by an LRA lemma.',
+        note='Assumes CPython formats floats with correct rounding (\'%.8f\' denotes round(x*1e8)), int(x) truncates and x-int(x) is exact for 0<=x<2**53 (IEEE facts), and that the string proxies agree with '
+             'CPython (validated per path on a solver witness). repr(float) is not modelled (would make the run inconclusive).'),
 }
 
 NOT_APPLICABLE = {
